@@ -16,7 +16,7 @@ RULE = ("phase 1 populates a filesystem store through a writable backend (seeded
 ASSUMPTIONS = ["CPython audit events cover every mutating file operation", "force_local (defined to override the cluster runner) is not used with the null runner"]
 COMPONENTS = {"real": ["storage backends, runner backends, MementoFunction call path", "tmpfs", "audit-hook FS seam"],
               "stub": ["uuid4 (seeded)", "clock (virtual)"]}
-REACH = ["null_runner_on_damaged_store", "ro_on_damaged_store", "ro_metadata_with_data_attempts", "ro_ops", "calls_served", "calls_executed", "ro_rejections", "null_storage_calls", "null_runner_calls", "mutation_events_armed"]
+REACH = ["calls_recomputed_after_read_error", "null_runner_on_damaged_store", "ro_on_damaged_store", "ro_metadata_with_data_attempts", "ro_ops", "calls_served", "calls_executed", "ro_rejections", "null_storage_calls", "null_runner_calls", "mutation_events_armed"]
 
 
 def gen_ro_ops(rng, n, knobs):
@@ -61,6 +61,10 @@ def cases(tier, seed):
         case = {"seed": s, "mode": "read-only", "knobs": kn, "via_config": how == "config", "ro_how": how,
                 "ro_roundtrip": rng.random() < 0.3, "populate": pop,
                 "ops": gen_ro_ops(rng, rng.randrange(3, 30), kn)}
+        if rng.random() < 0.4:
+            # reported I/O errors while calls through the read-only store read what is stored: such a call computes again;
+            # every later call must be served as before
+            case["ro_faults"] = {str(oi): {"read": True} for oi, op in enumerate(case["ops"]) if op[0] == "call" and rng.random() < 0.4}
         if rng.random() < 0.35:
             # the store being opened read-only was damaged earlier: some writes of the populate phase hit reported I/O errors
             # (empty / truncated link files, orphan objects)
@@ -102,7 +106,7 @@ def _exec_ro(case):
             return
         before = simfs.snapshot_tree(root)
         simfs.arm(W.roots(), intolerant=True)
-        v, st = storeops.run_ops(W, case["ops"], {"ro", "lenient"} if damaged else {"ro"}, log.append, model=model)
+        v, st = storeops.run_ops(W, case["ops"], {"ro", "lenient"} if damaged else {"ro"}, log.append, model=model, faults=case.get("ro_faults"))
         simfs.disarm()
         after = simfs.snapshot_tree(root)
         if before != after and not v:
